@@ -180,7 +180,7 @@ func modelCalls(s string) []string {
 
 func runC11(ctx *Ctx) error {
 	r, res := ctx.Rng, ctx.Res
-	res.Rule = "(a) system-call correspondence: AddOut, ProcessInbound, SetUnread and SetSent (messages of 2 KB and of 100 KB) are each executed by the real code in a child process under strace; the calls on files below the mailbox (open for writing, write, close, rename, unlink) must equal the model's call sequence. (b) crash points: for stores of messages of several sizes into mailboxes with existing messages (including an older copy under the same MID), every k in 0..4 and every j (quick: 24 prefix lengths incl. 0, 1, len-1, len; thorough: every byte) and both crash points of SetSent: the model's crash state is materialised in a temporary directory and the REAL recovery code runs on it (fresh DirHandler: Prepare, Inbox/Outbox/Sent listings, GetInboundAnswer, GetOutbound). Oracle: every folder loads without error, previously stored messages are byte-identical, an outbound message is in exactly one of outbox/sent, 'already received' only with a complete copy in the inbox (also for MIDs that differ from a stored one by the mailbox's file extension, and after a store that failed at its first system call: MIDs of 250..5000 bytes, a symlink loop in the message's place). Non-trivial: crash inside the write or between write and rename; distinct by (operation, size, k, j)."
+	res.Rule = "(a) system-call correspondence: AddOut, ProcessInbound, SetUnread and SetSent (messages of 2 KB and of 100 KB) are each executed by the real code in a child process under strace; the calls on files below the mailbox (open for writing, write, close, rename, unlink) must equal the model's call sequence. (b) crash points: for stores of messages of several sizes into mailboxes with existing messages (including an older copy under the same MID, and a stored message that consists of attachments only), every k in 0..4 and every j (quick: 24 prefix lengths incl. 0, 1, len-1, len; thorough: every byte) and both crash points of SetSent: the model's crash state is materialised in a temporary directory and the REAL recovery code runs on it (fresh DirHandler: Prepare, Inbox/Outbox/Sent listings, GetInboundAnswer, GetOutbound). Oracle: every folder loads without error, previously stored messages are byte-identical, an outbound message is in exactly one of outbox/sent, 'already received' only with a complete copy in the inbox (also for MIDs that differ from a stored one by the mailbox's file extension, and after a store that failed at its first system call: MIDs of 250..5000 bytes, a symlink loop in the message's place). Non-trivial: crash inside the write or between write and rename; distinct by (operation, size, k, j)."
 	root, err := os.MkdirTemp("", "verif-c11-")
 	if err != nil {
 		return err
@@ -277,6 +277,16 @@ func runC11(ctx *Ctx) error {
 			for _, e := range []struct{ f, mid string }{{"in", "OLDIN1"}, {"out", "OLDOUT1"}, {"sent", "OLDSENT1"}} {
 				b, _ := c11Message(e.mid, 300).Bytes()
 				base[e.f+"/"+e.mid+".b2f"] = b
+			}
+			if variant == 0 {
+				// among what was stored earlier: a message that is attachments only (no body text; an
+				// empty attachment, then one with content), as the library serialises it
+				am := c11Message("OLDATT1", 10)
+				am.SetBody("")
+				am.AddFile(fbb.NewFile("empty.txt", nil))
+				am.AddFile(fbb.NewFile("data.bin", []byte("attachment data")))
+				b, _ := am.Bytes()
+				base["in/OLDATT1.b2f"] = b
 			}
 			mid := fmt.Sprintf("NEW%d", si)
 			folder, fi := "in", 0
